@@ -4,7 +4,7 @@ from __future__ import annotations
 import ast
 
 from .. import astq, portmodel as pm
-from ..model import AnalysisError, ClassInfo, FuncInfo, unparse
+from ..model import AnalysisError, ClassInfo, FuncInfo, Unsupported, unparse
 from . import c05, c11
 
 LEVEL = 'other'
@@ -59,9 +59,35 @@ def uses_dummy_lock(ctx, c: ClassInfo):
     return False
 
 
+def _aliases(fn_node, attr):
+    """Local names bound to self.<attr> by an assignment (lock = self._lock; lock, q = self._lock, self._messages)."""
+    names, rhs = set(), set()
+
+    def bind(t, v):
+        if isinstance(t, ast.Name) and isinstance(v, ast.Attribute) and v.attr == attr and isinstance(v.value, ast.Name) and v.value.id == 'self':
+            names.add(t.id)
+            rhs.add(id(v))
+        elif isinstance(t, (ast.Tuple, ast.List)) and isinstance(v, (ast.Tuple, ast.List)) and len(t.elts) == len(v.elts):
+            for a, b in zip(t.elts, v.elts):
+                bind(a, b)
+    for n in astq.walk_shallow(fn_node):
+        if isinstance(n, ast.Assign):
+            for t in n.targets:
+                bind(t, n.value)
+        elif isinstance(n, ast.NamedExpr):
+            bind(n.target, n.value)
+    return names, rhs
+
+
+def _is_self_attr(e, attr, aliases=()):
+    return (isinstance(e, ast.Attribute) and e.attr == attr and isinstance(e.value, ast.Name) and e.value.id == 'self') or \
+        (isinstance(e, ast.Name) and e.id in aliases)
+
+
 def lock_regions(fn_node):
+    al, _ = _aliases(fn_node, '_lock')
     return [n for n in astq.walk_shallow(fn_node) if isinstance(n, ast.With)
-            and any(unparse(i.context_expr) == 'self._lock' for i in n.items)]
+            and any(_is_self_attr(i.context_expr, '_lock', al) for i in n.items)]
 
 
 def in_region(regions, node):
@@ -69,11 +95,11 @@ def in_region(regions, node):
 
 
 def deque_accesses(fn_node):
-    """Nodes `self._messages` in loads (tests, method calls)."""
+    """Uses of the pending queue: loads of self._messages (binding it to a local name is not a use; the uses of that name are)."""
+    al, rhs = _aliases(fn_node, '_messages')
     out = []
     for n in astq.walk_shallow(fn_node):
-        if isinstance(n, ast.Attribute) and n.attr == '_messages' and isinstance(n.value, ast.Name) and n.value.id == 'self' \
-                and isinstance(n.ctx, ast.Load):
+        if isinstance(n, (ast.Attribute, ast.Name)) and isinstance(n.ctx, ast.Load) and _is_self_attr(n, '_messages', al) and id(n) not in rhs:
             out.append(n)
     return out
 
@@ -100,7 +126,13 @@ def r10_1(ctx):
                 ctx.require(bool(in_region(regions, acc)), 'R10.1', inst, ctx.where(fn, acc),
                             f'the pending queue is accessed outside `with self._lock` in {c.name}.{name}',
                             construct=f'{fn.qname}::unguarded-queue-access')
-    ctx.floor('R10.1', n, 6)
+    ctx.floor('R10.1', n, 2)
+    audit = run_audit(ctx)
+    for inst, w, cons, code, text in audit['problems']:
+        if code in ('unguarded', 'lockset') and not inst.startswith('IOPort.'):
+            ctx.fail('R10.1', inst, w, text, construct=cons)
+        if code == 'hook-outside-lock':
+            ctx.fail('R10.5', inst, w, text, construct=cons)
     # R10.5a: hooks are only called inside lock regions
     m = 0
     for c in fam:
@@ -118,32 +150,31 @@ def r10_1(ctx):
 
 
 def r10_2(ctx):
+    """Every pop of the pending queue lies in a lock region (or a device hook); that the emptiness test guarding it was made
+    in the SAME acquisition of the lock is decided on the abstract executions (audit_lockset, code check-then-pop)."""
     fam = family(ctx)
     n = 0
     for c in fam:
         for name, fn in c.methods.items():
             regions = lock_regions(fn.node)
+            al, _ = _aliases(fn.node, '_messages')
             for call in astq.calls(fn.node):
                 f = call.func
-                if isinstance(f, ast.Attribute) and f.attr in ('popleft', 'pop') and unparse(f.value) == 'self._messages':
+                if isinstance(f, ast.Attribute) and f.attr in ('popleft', 'pop') and _is_self_attr(f.value, '_messages', al):
                     n += 1
                     inst = f'{c.name}.{name}.pop@{call.lineno}'
                     if name in HOOKS:
                         ctx.ok('R10.2', inst, ctx.where(fn, call), 'inside a device hook (lock held by the caller)')
                         continue
-                    regs = in_region(regions, call)
-                    guard = None
-                    for anc in astq.enclosing_stmt_chain(call):
-                        if isinstance(anc, ast.If) and unparse(anc.test) in ('self._messages', 'len(self._messages)', 'len(self._messages) > 0') \
-                                and any(astq.contains_node(s, call) for s in anc.body):
-                            guard = anc
-                            break
-                    ok = bool(regs) and guard is not None and any(astq.contains_node(r, guard) for r in regs)
-                    ctx.require(ok, 'R10.2', inst, ctx.where(fn, call),
-                                'popleft() is not in the same `with self._lock` region as the emptiness test that guards it '
-                                '(another thread can take the message in between: IndexError)',
+                    ctx.require(bool(in_region(regions, call)), 'R10.2', inst, ctx.where(fn, call),
+                                'popleft() outside every `with self._lock` region (another thread can take the message between the test and the pop)',
                                 construct=f'{fn.qname}::check-then-pop')
-    ctx.floor('R10.2', n, 2)
+    ctx.floor('R10.2', n, 1)
+    audit = run_audit(ctx)
+    for inst, w, cons, code, text in audit['problems']:
+        if code == 'check-then-pop':
+            ctx.fail('R10.2', inst, w, text, construct=cons)
+    ctx.floor('R10.2-audited-pops', audit['totals']['pop'], 8)
 
 
 def r10_3(ctx):
@@ -178,21 +209,19 @@ def r10_3(ctx):
             ctx.require(not touches, 'R10.3', f'{c.name}.{meth}', ctx.where(fn),
                         f'{c.name} has no real lock{" and shares its queue with another port" if shares else ""}, but {meth}() resolves to '
                         f'{fn.qname.split("::")[1]}, which tests and pops that queue relying on the lock', construct=f'{c.qname}::{meth}::unlocked-shared-queue')
-        o, fn = ctx.p.lookup_method(c, 'receive')
-        if fn is not None and fn.cls is c:
-            rets = [x for x in astq.walk_shallow(fn.node) if isinstance(x, ast.Return)]
-            ok = len(rets) == 1 and isinstance(rets[0].value, ast.Call) and unparse(rets[0].value.func) in ('self.input.receive',) \
-                and (astq.kwarg(rets[0].value, 'block') is not None and unparse(astq.kwarg(rets[0].value, 'block')) == 'block'
-                     or (rets[0].value.args and unparse(rets[0].value.args[0]) == 'block'))
-            ctx.require(ok, 'R10.3', f'{c.name}.receive.forwards', ctx.where(fn),
-                        'the overriding receive() does not simply forward to the input port (block included)', construct=f'{fn.qname}::forward')
     ctx.floor('R10.3', n, 1)
-    # the lock is created once, in BasePort.__init__
+    # the lock is chosen once by the constructor: a real re-entrant lock for ordinary ports, the no-op one for the wrapper;
+    # and the wrapper's calls reach the shared queue only under the input port's real lock (abstract executions)
+    audit = run_audit(ctx)
     base = ctx.p.cls(P, 'BasePort')
     init = base.methods.get('__init__')
-    st = [s for t, s in astq.stores_in(init.node) if unparse(t) == 'self._lock']
-    ok = len(st) == 2 and any('RLock()' in unparse(s.value) for s in st)
-    ctx.require(ok, 'R10.3', 'BasePort._lock', ctx.where(init), 'the port lock is not an RLock chosen once by _locking', construct=f'{init.qname}::lock')
+    for kind, lk in sorted(audit['locks'].items()):
+        want_real = not uses_dummy_lock(ctx, ctx.p.cls(P, kind))
+        ctx.require((lk == 'RLock') == want_real and lk in ('RLock', 'DummyLock'), 'R10.3', f'{kind}._lock', ctx.where(init),
+                    f'after construction {kind}._lock is {lk}', construct=f'{init.qname}::lock')
+    for inst, w, cons, code, text in audit['problems']:
+        if code in ('unguarded', 'lockset') and inst.startswith('IOPort.'):
+            ctx.fail('R10.3', inst, w, text + ' (the wrapper has no lock of its own and shares the queue of its input port)', construct=cons)
     for c in fam:
         for name, fn in c.methods.items():
             if name == '__init__':
@@ -264,6 +293,10 @@ def r10_5(ctx):
                                 ctx.where(fn, call), 'multi_receive() is called under the port lock without block=False: it sleeps (and never ends) holding the lock',
                                 construct=f'{fn.qname}::multi_receive-blocking')
     ctx.floor('R10.5', n, 2)
+    audit = run_audit(ctx)
+    for inst, w, cons, code, text in audit['problems']:
+        if code == 'sleep-under-lock':
+            ctx.fail('R10.5', inst, w, text, construct=cons)
 
 
 def r10_6(ctx):
@@ -316,5 +349,194 @@ def r10_backends(ctx):
     ctx.extra['backends_with_own_locking'] = outside
 
 
-RULES = [('R10.1', r10_1), ('R10.2', r10_2), ('R10.3', r10_3), ('R10.4', r10_4), ('R10.5', r10_5), ('R10.6', r10_6), ('R10.7', r10_7)]
+def _try_guarded_calls(ctx):
+    """ids of Call nodes inside a try body whose handlers catch IndexError (or wider)."""
+    out = set()
+    for m in ctx.p.modules.values():
+        for t in ast.walk(m.tree):
+            if isinstance(t, ast.Try):
+                names = set()
+                for h in t.handlers:
+                    if h.type is None:
+                        names.add('BaseException')
+                    else:
+                        for x in (h.type.elts if isinstance(h.type, ast.Tuple) else [h.type]):
+                            names.add(unparse(x).split('.')[-1])
+                if names & {'IndexError', 'LookupError', 'Exception', 'BaseException'}:
+                    for st in t.body:
+                        for c in ast.walk(st):
+                            if isinstance(c, ast.Call):
+                                out.add(id(c))
+    return out
+
+
+def audit_lockset(log, guarded=frozenset()):
+    """Eraser-style audit of one abstract execution.  Returns (problems, per-deque candidate locksets, counts)."""
+    start = next((i for i, e in enumerate(log) if e[0] == 'phase'), -1) + 1
+    held = []                # lock doubles currently held (re-entrant: with multiplicity)
+    epoch = {}               # id(lock) -> number of outermost acquisitions so far
+    problems = []
+    cands = {}               # id(deque) -> set of id(lock) held at every access
+    last_test = {}           # id(deque) -> {id(lock): epoch} at the latest emptiness test
+    counts = {'deque': 0, 'device': 0, 'sleep': 0, 'pop': 0}
+
+    def real(x):
+        return isinstance(x, pm.AMock) and x.name in ('RLock', 'Lock')
+    for i, e in enumerate(log):
+        if e[0] == 'with-enter' and real(e[1]):
+            if not any(h is e[1] for h in held):
+                epoch[id(e[1])] = epoch.get(id(e[1]), 0) + 1
+            held.append(e[1])
+        elif e[0] == 'with-exit' and real(e[1]):
+            for k in range(len(held) - 1, -1, -1):
+                if held[k] is e[1]:
+                    del held[k]
+                    break
+        if i < start:
+            continue
+        now = {id(h): epoch[id(h)] for h in held}
+        if e[0] == 'deque':
+            op, dq, node = e[1], e[2], e[3] if len(e) > 3 else None
+            counts['deque'] += 1
+            line = getattr(node, 'lineno', '?')
+            cands[id(dq)] = set(now) if id(dq) not in cands else cands[id(dq)] & set(now)
+            if not now:
+                problems.append(('unguarded', f'the pending queue is used ({op}, line {line}) while no port lock is held'))
+            if op == 'test':
+                last_test[id(dq)] = dict(now)
+            elif op in ('popleft', 'pop'):
+                counts['pop'] += 1
+                t = last_test.get(id(dq))
+                same = t is not None and any(now.get(k) == v for k, v in t.items())
+                if not same and id(node) not in guarded:
+                    problems.append(('check-then-pop', f'{op}() at line {line} is not in the same lock region as the emptiness test that guards it '
+                                     '(another thread can take the message in between: IndexError)'))
+        elif e[0] == 'device' and e[1] in HOOKS:
+            counts['device'] += 1
+            port = e[2]
+            lk = port.attrs.get('_lock') if hasattr(port, 'attrs') else None
+            if real(lk) and id(lk) not in now:
+                problems.append(('hook-outside-lock', f'{port.cls.name}.{e[1]}() runs without the port lock (device I/O of two threads can interleave)'))
+        elif e[0] == 'sleep':
+            counts['sleep'] += 1
+            if now:
+                problems.append(('sleep-under-lock', 'sleep() while a port lock is held: senders and other receivers are blocked for the polling interval'))
+    return problems, cands, counts
+
+
+def run_audit(ctx):
+    """The lock discipline audited on abstract executions of every public call of every port kind (aliases, helper methods
+    and re-ordered code make no difference here: what counts is which lock double is held when the queue double, the device
+    double or sleep() is reached).  Computed once per run."""
+    if 'c10_audit' in ctx.cache:
+        return ctx.cache['c10_audit']
+    from ..absint import AList, AObj, log_event
+    guarded = _try_guarded_calls(ctx)
+    base = ctx.p.cls(P, 'BasePort')
+    w0 = f'{base.module.relpath}:{base.node.lineno} port family'
+    res = {'n': 0, 'totals': {'deque': 0, 'device': 0, 'sleep': 0, 'pop': 0}, 'problems': [], 'raises': [], 'locks': {}, 'functions': set(), 'runs': []}
+
+    def mk(kind, ai):
+        if kind == 'IOPort':
+            i = pm.new_port(ai, ctx, 'BaseInput', [], {})
+            o = pm.new_port(ai, ctx, 'BaseOutput', [], {})
+            return pm.new_port(ai, ctx, 'IOPort', [i, o], {}), [i]
+        if kind == 'MultiPort':
+            a = pm.new_port(ai, ctx, 'EchoPort', [], {})
+            b = pm.new_port(ai, ctx, 'BaseIOPort', [], {})
+            return pm.new_port(ai, ctx, 'MultiPort', [[a, b]], {}), [a, b]
+        p = pm.new_port(ai, ctx, kind, [], {})
+        return p, [p]
+    INPUT_CALLS = [('receive(pending)', 'receive', {}, 1, 0), ('receive(block=False, empty)', 'receive', {'block': False}, 0, None),
+                   ('receive(blocking, delivered after 2 polls)', 'receive', {}, 0, 2), ('poll(pending)', 'poll', {}, 1, None),
+                   ('poll(empty)', 'poll', {}, 0, None), ('iter_pending(2 pending)', 'iter_pending', {}, 2, None),
+                   ('iteration(device closes after 1)', '__iter__', {}, 0, 'close')]
+    OUTPUT_CALLS = [('send', 'send'), ('reset', 'reset'), ('panic', 'panic')]
+    for kind in ('BaseInput', 'BaseOutput', 'BaseIOPort', 'EchoPort', 'IOPort', 'MultiPort'):
+        cls = ctx.p.cls(P, kind)
+        is_in = ctx.p.is_subclass(cls, ctx.p.cls(P, 'BaseInput'))
+        is_out = ctx.p.is_subclass(cls, ctx.p.cls(P, 'BaseOutput'))
+        calls = []
+        if is_in:
+            calls += INPUT_CALLS
+        if is_out:
+            calls += [(lab, meth, {}, 0, None) for lab, meth in OUTPUT_CALLS]
+        calls.append(('close', 'close', {}, 1, None))
+        for lab, meth, kw, npending, deliver in calls:
+            ai = pm.make_interp(ctx)
+            state = {}
+
+            def on_receive(interp, port, block):
+                state['n'] = state.get('n', 0) + 1
+                if deliver == 'close':
+                    if state['n'] > 1:
+                        pm.call(interp, ctx, state['port'], 'close')
+                    else:
+                        port.attrs['_messages'].items.append(pm.note(ctx, 40))
+                elif deliver is not None and state['n'] == deliver + 1:
+                    port.attrs['_messages'].items.append(pm.note(ctx, 41))
+                return None
+            pm.device_double(ai, ctx, on_receive=on_receive)
+
+            def thunk():
+                state.clear()
+                port, feeders = mk(kind, ai)
+                state['port'] = port
+                lk = port.attrs.get('_lock')
+                res['locks'][kind] = lk.name if isinstance(lk, pm.AMock) else lk.cls.name if isinstance(lk, AObj) and lk.cls is not None else repr(lk)
+                for f in feeders[-1:]:
+                    q = f.attrs.get('_messages')
+                    if isinstance(q, AList):
+                        q.items.extend(pm.note(ctx, i) for i in range(npending))
+                ai.sleeps = 0
+                log_event('phase', 'run')
+                args = [pm.note(ctx, 7)] if meth == 'send' else []
+                return pm.call(ai, ctx, port, meth, args, dict(kw))
+            inst = f'{kind}.{lab}'
+            try:
+                outs = ai.explore(thunk)
+            except Unsupported as e:
+                raise Unsupported(f'{inst}: {e}')
+            res['n'] += 1
+            o, fn = ctx.p.lookup_method(cls, meth)
+            w = ctx.where(fn) if fn is not None else w0
+            bad = [o_ for o_ in outs if o_.kind != 'return']
+            res['runs'].append((inst, w, len(outs)))
+            if bad or not outs:
+                res['raises'].append((inst, w, f'{cls.qname}::{meth}::raises', f'{bad[:2]}'))
+            for o_ in outs:
+                problems, cands, counts = audit_lockset(o_.log, guarded)
+                for k in res['totals']:
+                    res['totals'][k] += counts[k]
+                for code, text in problems:
+                    res['problems'].append((f'{inst}:{code}', w, f'{cls.qname}::{meth}::{code}', code, text))
+                if any(not c for c in cands.values()) and not any(c == 'unguarded' for c, _ in problems):
+                    res['problems'].append((f'{inst}:lockset', w, f'{cls.qname}::{meth}::lockset', 'lockset',
+                                            'no single lock is held at every use of a pending queue in this execution'))
+            res['functions'] |= set(ai.inlined)
+    ctx.cache['c10_audit'] = res
+    return res
+
+
+def r10_exec(ctx):
+    """R10.8: no public call on an open port raises, in any audited abstract execution; floors on what the audit saw."""
+    audit = run_audit(ctx)
+    failed = {r[0] for r in audit['raises']}
+    for inst, w, k in audit['runs']:
+        if inst not in failed:
+            ctx.ok('R10.8', inst, w, f'{k} abstract execution(s) return normally')
+    for inst, w, cons, text in audit['raises']:
+        ctx.fail('R10.8', inst, w, f'the call does not return normally on an open port: {text}', construct=cons)
+    for q in audit['functions']:
+        ctx.functions.add(q)
+    ctx.extra['abstract_executions_audited'] = audit['n']
+    ctx.extra['audited_events'] = dict(audit['totals'])
+    ctx.extra['lock_after_construction'] = dict(audit['locks'])
+    ctx.floor('R10.8', audit['n'], 30)
+    ctx.floor('R10.8-queue-events', audit['totals']['deque'], 30)
+    ctx.floor('R10.8-device-events', audit['totals']['device'], 10)
+    ctx.floor('R10.8-sleeps', audit['totals']['sleep'], 2)
+
+
+RULES = [('R10.8', r10_exec), ('R10.1', r10_1), ('R10.2', r10_2), ('R10.3', r10_3), ('R10.4', r10_4), ('R10.5', r10_5), ('R10.6', r10_6), ('R10.7', r10_7)]
 THOROUGH_RULES = [('R10-backends', r10_backends)]
